@@ -1781,6 +1781,7 @@ _g_ir_node_build_typelib (GIrNode         *node,
 	blob2->may_return_null = function->result->nullable;
 	blob2->caller_owns_return_value = function->result->transfer;
 	blob2->caller_owns_return_container = function->result->shallow_transfer;
+	blob2->skip_return = function->result->skip;
 	blob2->reserved = 0;
 	blob2->n_arguments = n;
 	blob2->throws = function->throws;
@@ -1839,6 +1840,7 @@ _g_ir_node_build_typelib (GIrNode         *node,
 	blob2->may_return_null = signal->result->nullable;
 	blob2->caller_owns_return_value = signal->result->transfer;
 	blob2->caller_owns_return_container = signal->result->shallow_transfer;
+	blob2->skip_return = signal->result->skip;
         blob2->instance_transfer_ownership = signal->instance_transfer_full;
 	blob2->reserved = 0;
 	blob2->n_arguments = n;
@@ -1901,6 +1903,7 @@ _g_ir_node_build_typelib (GIrNode         *node,
 	blob2->may_return_null = vfunc->result->nullable;
 	blob2->caller_owns_return_value = vfunc->result->transfer;
 	blob2->caller_owns_return_container = vfunc->result->shallow_transfer;
+	blob2->skip_return = vfunc->result->skip;
         blob2->instance_transfer_ownership = vfunc->instance_transfer_full;
 	blob2->reserved = 0;
 	blob2->n_arguments = n;
